@@ -215,6 +215,19 @@ fn exec(obj: &mut Obj, line: &str) -> String {
             adsr_line(a)
         }
         Obj::Lfo(l) => {
+            if op == "tickhash" {
+                // n ticks; the lines that would have been printed are folded into an FNV-1a hash
+                let n = a1.unwrap().parse::<u64>().unwrap();
+                let mut h: u64 = 0xcbf29ce484222325;
+                for _ in 0..n {
+                    l.tick();
+                    for b in lfo_line(l).as_bytes() {
+                        h ^= *b as u64;
+                        h = h.wrapping_mul(0x100000001b3);
+                    }
+                }
+                return format!("h={:016x} acc={}", h, l.verif_acc());
+            }
             match op {
                 "lfo.new" => {}
                 "tick" => l.tick(),
